@@ -205,17 +205,26 @@ Definition re_sample_short (randomness : list Z) : option (list Z) :=
     let v := map sample_short_bfield_element cs in
     if (length v =? RING_SIZE)%nat then Some v else None
   else None.
-(* CyclotomicRingElement::sample_uniform: acc = acc * 256 + randomness[i * 9 + j]; acc %= P *)
-Definition uniform_coeff (randomness : list Z) (i : nat) : option Z :=
-  match fold_left (fun st j => match st with None => None | Some acc =>
-                     match nth_error randomness (i * UNIFORM_BYTES + j)%nat with
-                     | Some b => Some (acc * UNIFORM_RADIX + b) | None => None end end)
-                  (seq 0 UNIFORM_BYTES) (Some 0) with
-  | None => None
-  | Some acc => Some (fp_new (acc mod P))
+(* CyclotomicRingElement::sample_uniform:
+     for i in 0..64 { acc = 0u128; for j in 0..9 { acc = acc * 256 + randomness[i * 9 + j] as u128 } acc %= P; new(acc as u64) }
+   The index i * 9 + j runs through 0, 1, 2, ... consecutively, so the bytes are consumed front to back;
+   running out of bytes is the index panic. *)
+Fixpoint uniform_acc (n : nat) (r : list Z) (acc : Z) : option (Z * list Z) :=
+  match n with
+  | O => Some (acc, r)
+  | S n' => match r with [] => None | b :: r' => uniform_acc n' r' (acc * UNIFORM_RADIX + b) end
   end.
-Definition re_sample_uniform (randomness : list Z) : option (list Z) :=
-  opt_all (map (uniform_coeff randomness) (seq 0 UNIFORM_COEFFS)).
+Fixpoint uniform_go (n : nat) (r : list Z) : option (list Z) :=
+  match n with
+  | O => Some []
+  | S n' =>
+      match uniform_acc UNIFORM_BYTES r 0 with
+      | None => None
+      | Some (acc, r') =>
+          match uniform_go n' r' with None => None | Some t => Some (fp_new (acc mod P) :: t) end
+      end
+  end.
+Definition re_sample_uniform (randomness : list Z) : option (list Z) := uniform_go UNIFORM_COEFFS randomness.
 Definition me_sample_short (n : nat) (randomness : list Z) : option mod_elem :=
   opt_all (map (fun k => match slice randomness (MODULE_SHORT_STRIDE * k) (MODULE_SHORT_STRIDE * (k + 1)) with
                          | None => None | Some s => re_sample_short s end) (seq 0 n)).
